@@ -167,6 +167,7 @@ def program_level(rng, n_programs):
     Each program holds several folded literals at once, including families of values that collide under
     Python's hash(), under float conversion, or differ only in type."""
     from nada_dsl import Party, Input, Output, Integer, UnsignedInteger, Boolean, SecretInteger, SecretUnsignedInteger, SecretBoolean
+    from nada_dsl import Array, nada_fn
     from nada_dsl.compiler_frontend import nada_dsl_to_nada_mir
     LIT = {"int": Integer, "uint": UnsignedInteger, "bool": Boolean}
     problems, nlits = [], 0
@@ -217,10 +218,32 @@ def program_level(rng, n_programs):
                 continue
             r = (host[cls] ^ lit) if cls == "Boolean" else (host[cls] + lit)
             outs.append((i, Output(r, f"o{i}", p)))
-        mir = nada_dsl_to_nada_mir([o for _, o in outs])
+        # one more folded literal, written inside a function body and reachable only through it
+        fa, fb = R.big_int(rng) % 2**70, rng.choice([2, 3, 5])
+        fval = fa * fb + 1
+
+        def scale(x: SecretInteger) -> SecretInteger:
+            return x * (Integer(fa) * Integer(fb) + Integer(1))
+        arr = Array(SecretInteger(Input("arr", p)), size=3)
+        mapped = arr.map(nada_fn(scale))
+        mir = nada_dsl_to_nada_mir([o for _, o in outs] + [Output(mapped, "mapped", p)])
         lits = {}
         for l in mir["literals"]:
             lits.setdefault(l["name"], []).append(l)
+        nlits += 1
+        found = False
+        for f in mir["functions"]:
+            for op in f["operations"].values():
+                rname, rbody = next(iter(op.items()))
+                if rname == "LiteralReference":
+                    found = True
+                    es = lits.get(rbody["refers_to"], [])
+                    if len(es) != 1 or es[0]["value"] != str(fval) or es[0]["type"] != "Integer":
+                        problems.append({"expr": f"x * (Integer({fa}) * Integer({fb}) + Integer(1)) inside a function body",
+                                         "why": f"the folded literal of the function body resolves to {es} in the MIR literal table; the exact "
+                                                f"result is {fval} of type Integer"})
+        if not found:
+            problems.append({"expr": "literal-only sub-expression inside a function body", "why": "no LiteralReference in the function's table"})
         for (i, _), mo in zip(outs, mir["outputs"]):
             desc, lit, val, cls = items[i]
             nlits += 1
